@@ -341,7 +341,9 @@ func famC(n int) {
 				// the document now declares more elements than bytes follow: a strict prefix
 				ver := verdict{must: true, reason: "strict-prefix@huge-" + st.Kind}
 				for ei, e := range entries {
-					if nonAllocating[e.Name] {
+					// struct and map targets only skip/capture values INSIDE a root compound; a root
+					// array would be allocated by its declared length before the type check
+					if nonAllocating[e.Name] && (tree.Tag == refnbt.Compound || e.Name == "raw" || e.Name == "raw-string" || e.Name == "stringified") {
 						runOne(slot, m, ei, network, ver, "famC:overflow-probe")
 						atomic.AddInt64(&cases, 1)
 					}
